@@ -75,6 +75,10 @@ import GridVerif.Props.C01.StripShape
 #print axioms GridVerif.C01.dergstrip_end_is_limit
 #print axioms GridVerif.C01.dergstrip_end_is_limit_left
 #print axioms GridVerif.C01.gstrip_shape
+#print axioms GridVerif.C01.dergstripMask_iff
+#print axioms GridVerif.C01.dergstrip_eq_interior
+#print axioms GridVerif.C01.dergstrip_is_deriv_outside_window
+#print axioms GridVerif.C01.dergstrip_eq_end
 #print axioms GridVerif.C01.trapezoidal_shape
 #print axioms GridVerif.C01.simpson_shape
 #print axioms GridVerif.C01.midpoint_shape
